@@ -276,10 +276,15 @@ def length_follows_masks(ctx, prog):
             else:
                 for j, u in g.calls():
                     cu = callee_of(u)
-                    if u["args"] and any(cu == p or norm_item(cu) == norm_item(p) for p in clears) and g.dominates(j, i) and j != i \
+                    if u["args"] and any(cu == p or norm_item(cu) == norm_item(p) for p in clears) and j != i \
                             and loc_canon(recv_loc(gs, u["args"][0])) == L:
-                        ok = True
-                        why = "dominated by %s at bb%d" % (cu.split("::")[-1], j)
+                        if g.dominates(j, i):
+                            ok = True
+                            why = "dominated by %s at bb%d" % (cu.split("::")[-1], j)
+                        elif all(j in g.reach_from(i) and r not in g.reach_from(i, avoid={j}) for r in g.return_blocks() if r in g.reach_from(i)):
+                            # the clear follows on every path from the store to the return: the function never returns in between
+                            ok = True
+                            why = "followed on every path to the return by %s at bb%d" % (cu.split("::")[-1], j)
                 if not ok:
                     why = "the length of %s is set on a path where its masks are neither cleared nor rebuilt" % L
             ctx.ob(R, "%s: length store (%s) happens only where the masks are redefined" % (g.short, callee_of(t).split("::")[-1]), ok, why, g.loc(t["sp"]))
